@@ -11,7 +11,7 @@ def judge(case, g):
         bad = [i + 1 for i in range(n) if g["construct"][i] != sc[i]]
         return ("c09:scratch", "construction-time CMR differs from hashing the tagged tree from scratch at nodes %s" % bad)
     root = sc[-1]
-    for k in ("commit_root", "redeem_root", "unfinalize_root", "unfinalize_types_root", "to_construct_root"):
+    for k in ("commit_root", "redeem_root", "unfinalize_root", "unfinalize_types_root", "to_construct_root", "human_root", "human_commit_root"):
         if k in g and g[k] != root:
             return ("c09:conversion", "%s = %s differs from the construction-time root %s" % (k, g[k], root))
     if "commit" in g and not set(g["commit"]) <= set(sc):
